@@ -468,6 +468,19 @@ EXTRA = [
     ('empty RETURN() on a void function', 'MAKE_MOCK1(f, void(int));', 'REQUIRE_CALL(m, f(trompeloeil::_)).RETURN();', 'RETURN does not make sense for void-function', 'c++14'),
     ('MAKE_MOCKn arity smaller than the signature', 'MAKE_MOCK1(f, void(int, int));', '', 'Function signature does not have 1 parameters', 'c++14'),
     ('MAKE_CONST_MOCK0 on a one-parameter signature', 'MAKE_CONST_MOCK0(f, int(int));', '', 'Function signature does not have 0 parameters', 'c++14'),
+    # the variadic (_V) macro family is a separate set of macro definitions: same diagnostics
+    ('FORBID_CALL_V with RETURN', 'MAKE_MOCK1(f, int(int));', 'FORBID_CALL_V(m, f(trompeloeil::_), .RETURN(1));', 'RETURN for forbidden call does not make sense', 'c++14'),
+    ('FORBID_CALL_V with SIDE_EFFECT', 'MAKE_MOCK1(f, int(int));', 'FORBID_CALL_V(m, f(trompeloeil::_), .SIDE_EFFECT(++gi));', 'SIDE_EFFECT for forbidden call does not make sense', 'c++14'),
+    ('FORBID_CALL_V with WITH then THROW', 'MAKE_MOCK1(f, int(int));', 'FORBID_CALL_V(m, f(trompeloeil::_), .WITH(_1 > 0) .THROW(1));', 'THROW for forbidden call does not make sense', 'c++14'),
+    ('NAMED_FORBID_CALL_V with IN_SEQUENCE', 'MAKE_MOCK1(f, int(int));', 'auto e = NAMED_FORBID_CALL_V(m, f(trompeloeil::_), .IN_SEQUENCE(gseq)); (void)e;', 'IN_SEQUENCE for forbidden call does not make sense', 'c++14'),
+    ('NAMED_FORBID_CALL_V with RETURN', 'MAKE_MOCK1(f, int(int));', 'auto e = NAMED_FORBID_CALL_V(m, f(trompeloeil::_), .RETURN(0)); (void)e;', 'RETURN for forbidden call does not make sense', 'c++14'),
+    ('REQUIRE_CALL_V with two RETURN', 'MAKE_MOCK1(f, int(int));', 'REQUIRE_CALL_V(m, f(trompeloeil::_), .RETURN(1) .RETURN(2));', 'Multiple RETURN does not make sense', 'c++14'),
+    ('REQUIRE_CALL_V without RETURN on a value function', 'MAKE_MOCK1(f, int(int));', 'REQUIRE_CALL_V(m, f(trompeloeil::_));', 'RETURN missing for non-void function', 'c++14'),
+    ('REQUIRE_CALL_V with clauses but no RETURN on a value function', 'MAKE_MOCK1(f, int(int));', 'REQUIRE_CALL_V(m, f(trompeloeil::_), .WITH(_1 > 0) .TIMES(2));', 'RETURN missing for non-void function', 'c++14'),
+    ('ALLOW_CALL_V with TIMES', 'MAKE_MOCK1(f, int(int));', 'ALLOW_CALL_V(m, f(trompeloeil::_), .TIMES(2) .RETURN(1));', 'Only one TIMES call limit is allowed', 'c++14'),
+    ('NAMED_REQUIRE_CALL_V with RETURN on a void function', 'MAKE_MOCK1(f, void(int));', 'auto e = NAMED_REQUIRE_CALL_V(m, f(trompeloeil::_), .RETURN(1)); (void)e;', 'RETURN does not make sense for void-function', 'c++14'),
+    ('REQUIRE_CALL_V with TIMES(0) then SIDE_EFFECT', 'MAKE_MOCK1(f, void(int));', 'REQUIRE_CALL_V(m, f(trompeloeil::_), .TIMES(0) .SIDE_EFFECT(++gi));', 'SIDE_EFFECT for forbidden call does not make sense', 'c++14'),
+    ('REQUIRE_CALL_V with SIDE_EFFECT then TIMES(0)', 'MAKE_MOCK1(f, void(int));', 'REQUIRE_CALL_V(m, f(trompeloeil::_), .SIDE_EFFECT(++gi) .TIMES(0));', 'SIDE_EFFECT and TIMES(0) does not make sense', 'c++14'),
     ('deathwatched on a polymorphic type with a non-virtual destructor', 'MAKE_MOCK1(f, void(int));', 'struct P { virtual void g() {} ~P() {} }; auto* pw = new trompeloeil::deathwatched<P>(); (void)pw;', 'virtual destructor is a necessity for deathwatched to work', 'c++14'),
 ]
 LEGAL = [
@@ -478,6 +491,10 @@ LEGAL = [
     ('FORBID_CALL with WITH only; NAMED_ forms', 'MAKE_MOCK1(f, int(int));', 'FORBID_CALL(m, f(trompeloeil::_)).WITH(_1 < 0); auto e = NAMED_ALLOW_CALL(m, f(trompeloeil::_)).RETURN(0); auto e2 = NAMED_REQUIRE_CALL(m, f(2)).TIMES(AT_MOST(3)).LR_RETURN(gi); (void)e; (void)e2;'),
     ('IN_SEQUENCE followed by an interval with lower bound 0', 'MAKE_MOCK1(f, void(int));', 'REQUIRE_CALL(m, f(trompeloeil::_)).IN_SEQUENCE(gseq).TIMES(AT_MOST(2)); REQUIRE_CALL(m, f(1)).IN_SEQUENCE(gseq).TIMES(0, 3); REQUIRE_CALL(m, f(2)).IN_SEQUENCE(gseq).TIMES(AT_LEAST(0));'),
     ('reference return and pointer return', 'MAKE_MOCK1(f, int&(int));', 'REQUIRE_CALL(m, f(trompeloeil::_)).LR_RETURN(gi); REQUIRE_CALL(m, f(1)).LR_RETURN(std::ref(gi));'),
+    ('the variadic (_V) macro family, scoped and NAMED_', 'MAKE_MOCK1(f, int(int));\n  MAKE_MOCK1(v, void(int));',
+     'REQUIRE_CALL_V(m, f(trompeloeil::_), .WITH(_1 > 0) .IN_SEQUENCE(gseq) .TIMES(2) .SIDE_EFFECT(++gi) .RETURN(1)); ALLOW_CALL_V(m, f(1), .RETURN(0)); FORBID_CALL_V(m, f(2)); FORBID_CALL_V(m, f(3), .WITH(_1 == 3) .LR_WITH(gi == 0));'
+     ' REQUIRE_CALL_V(m, v(1)); ALLOW_CALL_V(m, v(2)); REQUIRE_CALL_V(m, v(3), .TIMES(AT_LEAST(1)) .LR_SIDE_EFFECT(++gi) .THROW(1));'
+     ' auto e = NAMED_REQUIRE_CALL_V(m, f(4), .RETURN(0)); auto e2 = NAMED_ALLOW_CALL_V(m, f(5), .LR_RETURN(gi)); auto e3 = NAMED_FORBID_CALL_V(m, f(6)); auto e4 = NAMED_FORBID_CALL_V(m, f(7), .WITH(_1 == 7)); auto e5 = NAMED_ALLOW_CALL_V(m, v(4)); (void)e; (void)e2; (void)e3; (void)e4; (void)e5;'),
     # the long-macro configuration: every prefixed macro must work on its own (the short names do not exist)
     ('LONG_MACROS: every prefixed expectation macro and clause', 'TROMPELOEIL_MAKE_MOCK1(f, int(int));\n  TROMPELOEIL_MAKE_CONST_MOCK1(c, void(int));',  # one MAKE_MOCK per source line
      'int loc = 0; TROMPELOEIL_REQUIRE_CALL(m, f(trompeloeil::_)).TROMPELOEIL_WITH(_1 > 0).TROMPELOEIL_LR_WITH(_1 > loc).TROMPELOEIL_IN_SEQUENCE(gseq).TROMPELOEIL_TIMES(TROMPELOEIL_AT_LEAST(1)).TROMPELOEIL_SIDE_EFFECT(++gi).TROMPELOEIL_LR_SIDE_EFFECT(++loc).TROMPELOEIL_RETURN(1);'
